@@ -3,16 +3,16 @@
 # worktree of /repo's HEAD (/tmp/wt_seed, own build directory /tmp/verif_build_seed) so that /repo itself stays
 # untouched (background runs that rebuild from /repo are not disturbed).
 ID=$1; P=$2; TIER=${3:-quick}
-WT=/tmp/wt_seed
+WT=/tmp/wt_seed${SLOT:-}
 HEAD=$(git -C /repo rev-parse HEAD)
 if [ ! -d $WT ]; then git -C /repo worktree add --detach $WT HEAD > /dev/null 2>&1 || exit 9; fi
 git -C $WT checkout -q -- . ; git -C $WT checkout -q --detach $HEAD || exit 9
 git -C $WT apply "$P" || { echo "patch does not apply"; exit 8; }
 cd /verif
-cp evidence/$ID.json /tmp/evidence_$ID.keep 2>/dev/null
-VERIF_REPO=$WT VERIF_BUILD=/tmp/verif_build_seed scripts/check $ID $TIER > /tmp/seedtest_wt_$ID.log 2>&1; RC=$?
+cp evidence/$ID.json /tmp/evidence_$ID${SLOT:-}.keep 2>/dev/null
+VERIF_REPO=$WT VERIF_BUILD=/tmp/verif_build_seed${SLOT:-} scripts/check $ID $TIER > /tmp/seedtest_wt_$ID${SLOT:-}.log 2>&1; RC=$?
 git -C $WT checkout -q -- .
-cp /tmp/evidence_$ID.keep evidence/$ID.json 2>/dev/null
-echo "check rc=$RC violations=$(grep -c '^VIOLATION' /tmp/seedtest_wt_$ID.log) known=$(grep -c '^KNOWN-FINDING' /tmp/seedtest_wt_$ID.log)"
-grep -m3 -A2 "^VIOLATION" /tmp/seedtest_wt_$ID.log | cut -c1-300
+cp /tmp/evidence_$ID${SLOT:-}.keep evidence/$ID.json 2>/dev/null
+echo "check rc=$RC violations=$(grep -c '^VIOLATION' /tmp/seedtest_wt_$ID${SLOT:-}.log) known=$(grep -c '^KNOWN-FINDING' /tmp/seedtest_wt_$ID${SLOT:-}.log)"
+grep -m3 -A2 "^VIOLATION" /tmp/seedtest_wt_$ID${SLOT:-}.log | cut -c1-300
 exit $RC
